@@ -212,6 +212,14 @@ def recognise {C : Type} [DecidableEq C] (isPos : C → Bool) (dflt : C) (r : Re
      | .ne => isPos (code.scale dflt)
      | _ => true)
 
+/-- argument order of the outer `min`/`max` is immaterial for the value (`Props/C13.canon_exec`): a statement
+`x[i] = min(x[i], e)` / `max(x[i], e)` is read as `min(e, x[i])` / `max(e, x[i])` before it is validated -/
+def Assign.canon {C : Type} (code : Assign C) : Assign C :=
+  match code.e with
+  | .min (.var j) b => if j = code.i then ⟨code.i, .min b (.var j)⟩ else code
+  | .max (.var j) b => if j = code.i then ⟨code.i, .max b (.var j)⟩ else code
+  | _ => code
+
 /-! ## what `penalty_parser` emits -/
 
 /-- `lhs ⋈ rhs` (any left-hand side) -/
